@@ -56,6 +56,14 @@ Post(c, act, rd, br) ==
   LET f   == Norm(c.f)
       cls == <<c.k, rd>> \o br
   IN IF c.re # "ok" THEN Rej(act, <<"no-action", "encode", c.re>>, cls)
+     ELSE IF c.ro = "DecodeError" /\ IsErr(DecodeNoNest(c.enc)) /\ ~IsErr(Decode(c.enc)) THEN
+            \* D9: the PDU holds an AGF inside an AGF, which the strict reading does not count as a valid PDU:
+            \* no round trip is owed; its encoding and length still are
+            \* (the round trip through the reference decoder, which accepts nesting, names a lost field)
+            (IF Norm(Decode(c.enc)) # f THEN Rej(act, <<"inv", "RoundTrip", Diff(f, Norm(Decode(c.enc)))>>, cls)
+             ELSE IF c.enc # Encode(c.f) THEN Rej(act, <<"inv", "Encoding", <<c.f.t, "nested">>>>, cls)
+             ELSE IF c.len # DeclLen(c.f) \/ c.len # Len(c.enc) THEN Rej(act, <<"inv", "Length", <<c.f.t, "nested">>>>, cls)
+             ELSE Ok(act, <<c.k, "nonest-encode-only">> \o br))
      ELSE IF c.ro # "ok" THEN Rej(act, <<"inv", "RoundTrip", <<c.f.t, "re-decode", c.ro>>>>, cls)
      ELSE IF Norm(c.f2) # f THEN Rej(act, <<"inv", "RoundTrip", Diff(f, Norm(c.f2))>>, cls)
      ELSE IF c.enc # Encode(c.f) THEN
